@@ -811,7 +811,7 @@ func (c *Ctx) Callee(call *ast.CallExpr) *types.Func {
 
 // IsMethod reports whether fn is the method recvType.name declared in package pkgPath.
 func IsMethod(fn *types.Func, pkgPath, recvType, name string) bool {
-	if fn == nil || fn.Name() != name || fn.Pkg() == nil || fn.Pkg().Path() != pkgPath {
+	if fn == nil || load.CanonName(fn) != name || fn.Pkg() == nil || fn.Pkg().Path() != pkgPath {
 		return false
 	}
 	sig := fn.Type().(*types.Signature)
@@ -830,7 +830,7 @@ func IsMethod(fn *types.Func, pkgPath, recvType, name string) bool {
 
 // IsFunc reports whether fn is the package-level function pkgPath.name.
 func IsFunc(fn *types.Func, pkgPath, name string) bool {
-	if fn == nil || fn.Name() != name || fn.Pkg() == nil || fn.Pkg().Path() != pkgPath {
+	if fn == nil || load.CanonName(fn) != name || fn.Pkg() == nil || fn.Pkg().Path() != pkgPath {
 		return false
 	}
 	return fn.Type().(*types.Signature).Recv() == nil
